@@ -18,6 +18,7 @@ import PyAbel.Model.Representations
 import PyAbel.Model.RbasexImage
 import PyAbel.Model.Polynomial
 import PyAbel.Model.Recursions
+import PyAbel.Model.Profiles
 import PyAbel.Gen.Tables
 open PyAbel PyAbel.Proto
 
@@ -224,6 +225,14 @@ def handle (toks : List String) : String :=
     | some rmin, some rmax, some x, some xs =>
       s!"ok 1 1 " ++ showFloats [Poly.polyAbelAt xs.size (fun i => xs.getD i 0.0) rmin rmax x]
     | _, _, _, _ => "bad-op"
+  -- profile k x  → transform_pairs.profile<k>(x): source and projection (k ∈ {1, 2, 3, 5, 7})
+  | ["profile", k, x] =>
+    match k.toNat?, parseFloat x with
+    | some k, some x =>
+      match Profiles.pair k x with
+      | some (s, p) => s!"ok 1 2 " ++ showFloats [s, p]
+      | none => "bad-op"
+    | _, _ => "bad-op"
   | "aconv" :: na :: rest =>
     match na.toNat?, parseFloats rest with
     | some na, some xs =>
